@@ -85,7 +85,10 @@ impl<T: Clone + Copy + Number + Signed + std::cmp::PartialOrd> Matrix<T> {
                     imax = k;
                 }
             }
-            //TODO check max_a to ensure matrix is not singular 
+            // A column that is zero on and below the diagonal needs no elimination
+            // (the matrix is singular and U gets a zero on its diagonal); dividing
+            // by the zero pivot would only turn the factors into NaN.
+            if max_a == T::zero() { continue; }
             if imax != i {
                 permutation.swap_rows( i, imax );
                 self.swap_rows( i, imax );
